@@ -5,11 +5,15 @@ channels and a harness server set whose initial load is released by the script.
 Script: {'kind': 'heap'|'aperture', 'min_size', 'max_size', 'min_load': [n, d], 'max_load': [n, d],
          'slow_open': bool, 'initial': [ep...], 'ops': [...], 'seed': int}
 script ops:  ['open'] ['snap'] ['loaded'] ['join', ep] ['leave', ep] ['get'] ['getd'] ['expire', k] ['put', k] ['chan', nid, st]
-             ['opened', nid, ok] ['jitter'] ['tick', ms] ['back', ms]
+             ['opened', nid, ok] ['jitter'] ['tick', ms] ['back', ms] ['decoy', n, ms]
 `snap` (the moment the provider takes the snapshot it will return from GetServers), `tick` (virtual time
 passes) and `back` (the wall clock that `scales.varz` reads — `time.time()` inside `MonoClock` — is stepped
 BACKWARDS by ms milliseconds: an NTP step, a VM resume; the gevent loop's own clock stays monotone) are
-harness-only; all others become model operations
+harness-only, and so is `decoy`: after ms milliseconds n requests are dispatched, ms/4 apart, through a SECOND
+ApertureBalancerSink of the same process (harness/isolation.py `aperture_balancer()`, four members of its own,
+opened at its first use) and stay outstanding — the other service an application talks to; nothing of it is
+recorded or shown to the model: whatever it does must leave the balancer under test alone.  All others become
+model operations
 
     open | loaded (eps in AddServer order) E | join ep E | leave ep E | get E | getd E | expire k | put r j E | chan nid st
     | opened nid T/F E | jitter E          with E = (choices…) ((wn wd an ad tn td)…)
@@ -228,6 +232,7 @@ def gen_phases(rng):
               'max_load': max_load, 'slow_open': False, 'initial': list(range(n_eps)), 'ops': ops,
               'auto_open': True, 'seed': rng.randrange(1 << 30)}
     add_clock_steps(script)
+    add_decoy_traffic(script)
     return script
 
 
@@ -328,7 +333,24 @@ def gen_script(rng, tier, focus):
               'auto_open': rng.random() < 0.65, 'seed': rng.randrange(1 << 30)}
     if kind == 'aperture':
         add_clock_steps(script)
+        if focus == 6:
+            add_decoy_traffic(script)
     return script
+
+
+def add_decoy_traffic(script):
+    """A fifth of the aperture scripts: a second aperture balancer of the same process takes traffic (1 … 12 requests
+    that stay outstanding, 100 ms … 5 s after the operation before) at one to four places between the traffic of the
+    balancer under test.  Drawn from a generator of its own and inserted afterwards, like the clock steps."""
+    import random as _random
+    aux = _random.Random(script['seed'] ^ 0xDEC06)
+    if aux.random() >= 0.2:
+        return
+    ops = script['ops']
+    first = next(i for i, o in enumerate(ops) if o[0] == 'loaded') + 1
+    for _ in range(aux.choice([1, 2, 2, 4])):
+        ops.insert(aux.randrange(first, len(ops) + 1), ['decoy', aux.choice([1, 2, 4, 8, 12]),
+                                                        aux.choice([100, 1000, 1000, 5000])])
 
 
 def add_clock_steps(script):
@@ -399,15 +421,36 @@ def run_script(script, comp):
     real_math = varzmod.math._real if isinstance(varzmod.math, LoggingMath) else varzmod.math
     wall = WallClock(real, rt.loop)
     varzmod.time = wall
-    varzmod.math = LoggingMath(real_math)
+    vmath = varzmod.math = LoggingMath(real_math)
+    # `Ema.Update` is wrapped ON THE CLASS: whatever Ema object the code under test made for itself (the harness
+    # assigns none) has what each call was given, held before and returned on record, in `ema_log`
+    real_update = getattr(varzmod.Ema.Update, '_lbrun_real', varzmod.Ema.Update)
+    ema_log = []
+
+    def Update(self, ts, sample):
+        first = self._time == -1
+        prev_t, prev_v = self._time, self.value
+        del vmath.exps[:]
+        v = real_update(self, ts, sample)
+        if first:
+            w, dt, prev = 0.0, Fraction(0), None
+        else:
+            w = vmath.exps[-1] if vmath.exps else 0.0     # the weight it used (no exp: window 0, weight 0)
+            dt, prev = Fraction(ts) - Fraction(prev_t), frac(prev_v)
+        ema_log.append((self, (w, v, dt, prev, int(sample))))
+        return v
+
+    Update._lbrun_real = real_update
+    varzmod.Ema.Update = Update
     try:
-        return _run_script(script, comp, wall, varzmod.math)
+        return _run_script(script, comp, wall, ema_log)
     finally:
         varzmod.time = real
         varzmod.math = real_math
+        varzmod.Ema.Update = real_update
 
 
-def _run_script(script, comp, wall, vmath):
+def _run_script(script, comp, wall, ema_log):
     import random as _random
     import gevent
     from gevent.event import Event
@@ -584,23 +627,6 @@ def _run_script(script, comp, wall, vmath):
     if aperture:
         sink._ScheduleNextJitter = lambda: None        # timer queue is not part of this slice
         t_created = Fraction(sink._time._last)         # the reading MonoClock.__init__ took
-
-        class LoggingEma(Ema):
-            """the real Ema.Update, with what it was given and what it held before on record"""
-            def Update(self, ts, sample):
-                first = self._time == -1
-                prev_t, prev_v = self._time, self.value
-                del vmath.exps[:]
-                v = Ema.Update(self, ts, sample)
-                if first:
-                    w, dt, prev = 0.0, Fraction(0), None
-                else:
-                    w = vmath.exps[-1] if vmath.exps else 0.0     # the weight it used (no exp: window 0, weight 0)
-                    dt, prev = Fraction(ts) - Fraction(prev_t), frac(prev_v)
-                self.last = (w, v, dt, prev, int(sample))
-                return v
-
-        sink._ema = LoggingEma(5)
         orig_adjust = sink._AdjustAperture
 
         def healthy():
@@ -614,8 +640,11 @@ def _run_script(script, comp, wall, vmath):
             before = (sink._size, len(sink._idle_endpoints), pend, healthy())
             held = sink._time._last
             del wall.reads[:]
+            n0 = len(ema_log)
             orig_adjust(amount)
-            w, v, dt, prev, sample = sink._ema.last
+            # the update this call made on the Ema object the balancer uses (its last one ever, had it made none)
+            mine = [r for o, r in ema_log[n0:] if o is sink._ema] or [r for o, r in ema_log if o is sink._ema]
+            w, v, dt, prev, sample = mine[-1]
             # what time.time() returned inside MonoClock.Sample() (no reading: the clock was not consulted)
             reading = wall.reads[0] if wall.reads else held
             if reading < held:
@@ -762,6 +791,43 @@ def _run_script(script, comp, wall, vmath):
                 res.append(q['res'])
         return res + extra
 
+    decoy = []
+
+    def decoy_traffic(n, gap):
+        """the other aperture balancer of the process: made the way harness/isolation.py makes one, with a random
+        source, members and channels of its own; its requests stay outstanding"""
+        import isolation
+        from test.scales.util.mocks import MockSink, MockSinkStack
+        own = _random.Random(script['seed'] ^ 0xDEC0)
+        basemod.random = heapmod.random = apmod.random = own
+        try:
+            if not decoy:
+                d = isolation.aperture_balancer()
+                d._ScheduleNextJitter = lambda: None
+                for i in range(4):
+                    d._server_set_provider.AddServer('decoy', 9000 + i)
+                d.Open()
+                rt.drain()
+                decoy.append(d)
+            d = decoy[0]
+            rt.advance(gap)
+            for _ in range(n):
+                st = MockSinkStack()
+                term = MockSink({SinkProperties.Endpoint: None})
+                term.ProcessResponse = lambda *a: None
+                st.Push(term)
+                d.AsyncProcessRequest(st, Message(), None, {})
+                rt.drain()
+                rt.advance(gap / 4)
+        finally:
+            basemod.random = heapmod.random = apmod.random = lr
+
+    if aperture:
+        # every aperture script starts after the same prelude — the other balancer of the process is made, opened and
+        # takes one request — so that what a script sees of the process does not depend on the scripts the worker ran
+        # before it: a sweep, a shrink step and a replay behave alike
+        decoy_traffic(1, 1.0)
+
     for op in script['ops']:
         if aperture:
             in_flight = set(c.endpoint for c in prov.chans if c.opens > 0 and c.open_out is None)
@@ -779,6 +845,12 @@ def _run_script(script, comp, wall, vmath):
         if kind == 'back':
             wall.offset -= op[1] / 1000.0
             tags.add('clock-back')
+            continue
+        if kind == 'decoy':
+            if aperture:
+                decoy_traffic(op[1], (op[2] if len(op) > 2 else 1000) / 1000.0)
+                tags.add('decoy-traffic')
+                del draws[:], choices[:], adj_in[:], adj_rec[:], shuffles[:]
             continue
         if kind == 'snap':
             if ss.snapshot is None:
